@@ -119,23 +119,24 @@ type obsRec struct {
 }
 
 type explorer struct {
-	slv           *solver
-	prefix        []int64
-	pos           int
-	model         map[string]uint64
-	memo          map[int]uint64
-	known         map[int]bool
-	dom           map[*term]*[4]uint64 // per 8-bit variable: values allowed by the single-variable constraints asserted so far
-	tangle        map[*term]bool       // variables that occur in an asserted constraint over several variables
-	solverDecided int
-	vars          []*term
-	inputs        []inputRec
-	docs          []*docRec
-	docStrings    int
-	varSeq        map[string]int
-	tags          []tagRec
-	obs           []obsRec
-	work          []WorkItem
+	slv             *solver
+	prefix          []int64
+	pos             int
+	model           map[string]uint64
+	memo            map[int]uint64
+	known           map[int]bool
+	dom             map[*term]*[4]uint64 // per 8-bit variable: values allowed by the single-variable constraints asserted so far
+	tangle          map[*term]bool       // variables that occur in an asserted constraint over several variables
+	solverDecided   int
+	vars            []*term
+	inputs          []inputRec
+	docs            []*docRec
+	docStrings      int
+	schedDeviations int
+	varSeq          map[string]int
+	tags            []tagRec
+	obs             []obsRec
+	work            []WorkItem
 
 	instrs       int64
 	instrBudget  int64
@@ -718,6 +719,7 @@ func (w *Worker) runPath(it WorkItem, seed uint64) {
 	e.inputs = nil
 	e.docs = nil
 	e.docStrings = 0
+	e.schedDeviations = 0
 	e.varSeq = map[string]int{}
 	e.tags = nil
 	e.obs = nil
